@@ -137,7 +137,8 @@ def make_auth_adv(seed: int):
                 k = r.choice([b'k', b'a', b'P'])
                 parts.append(push(secret) + op('WRITE_CACHE', b1(len(k)), k, b1(1)))
             elif c == 4:
-                parts.append(push(r.randbytes(2)) * r.randrange(1, 3))
+                # junk below the expected items, zero-length junk included
+                parts.append(r.choice([push(r.randbytes(2)), op('PUSH1', b1(0))]) * r.randrange(1, 3))
             elif c == 5:
                 h = r.randrange(0, 3)
                 body = op('CALL', b1(h))
@@ -268,6 +269,8 @@ def make_cachey(seed: int):
         if r.random() < 0.15:
             sc[k] = bytearray(sc[k])
     sc['timestamp'] = NOW + r.choice([0, 5, -5])
+    if r.random() < 0.2:               # a timestamp of another type: the time checks must fail without touching it
+        sc['timestamp'] = r.choice([float(NOW), NOW + 0.75, str(NOW), NOW.to_bytes(4, 'big'), bytearray(NOW.to_bytes(4, 'big')), [NOW]])
     for k, v in [('note', b'\x01'), ('memo', 'text'), ('n', 7), ('f', 1.5), ('lst', [b'a', b'b']), ('E', b'e'), ('P', b'p'),
                  ('x', b'x'), ('IR', b'ir'), ('s', b's')]:
         if r.random() < 0.4:
@@ -289,11 +292,13 @@ def make_cachey(seed: int):
             parts.append(op('GET_VALUE', b1(len(k)), k) + push(r.randbytes(40)) + op(r.choice(['XOR', 'OR', 'AND', 'CONCAT']))
                          + op('GET_MESSAGE', b'\x00'))
         elif c < 0.8:
-            parts.append(r.choice([g.s_curve, g.s_adapter, g.s_sig, g.s_invoke, g.s_getvalue, g.s_template])(0))
+            parts.append(r.choice([g.s_curve, g.s_adapter, g.s_sig, g.s_invoke, g.s_getvalue, g.s_template, g.s_time])(0))
         elif c < 0.9:
             parts.append(r.choice([g.s_if, g.s_defcall, g.s_eval, g.s_loop])(1))
         else:
             parts.append(g.snippet(1))
+    if not isinstance(sc['timestamp'], int):       # reach a time check early, inside a TRY so that the run goes on
+        parts.insert(r.randrange(0, 2), block('TRY_EXCEPT', g.s_time(1), b''))
     bc0 = {k: [r.randbytes(2)] for k in names if k and r.random() < 0.2}
     auth = r.random() < 0.3
     scripts = [b''.join(parts)]
